@@ -308,11 +308,15 @@ def execute(plan):
             # identify the site by re-running the same damaged input on the sanitized build
             r2, _ = _run(ent, job, "san", fault, tag + "s")
             site = crash_site(r2.stderr) if r2.crashed else "rel-only"
+        if r.timeout and runner.LAST_HANG_STACK:
+            site_note = "; stack when killed: " + runner.LAST_HANG_STACK
+        else:
+            site_note = ""
         what = "timeout" if r.timeout else ("signal" if r.signal else ("sanitizer" if r.sanitizer else "status%s" % r.status))
         first = (r.stderr.decode("utf-8", "replace").strip().splitlines() or [""])[0][:160]
         violations.append({"property": "C15", "class": "crash", "key": {"tool": tool, "site": site},
                            "msg": "%s (%s build) on %s with fault %s: %s; innermost repository frame: %s; stderr: %s" %
-                                  (tool, kind, ent["id"], json.dumps(fault, sort_keys=True), r.outcome(), site, first)})
+                                  (tool, kind, ent["id"], json.dumps(fault, sort_keys=True), r.outcome(), site, first + site_note)})
     elif DIAG.search(r.stderr):
         if r.status == 0:
             violations.append({"property": "C15", "class": "error-but-exit0", "key": {"tool": tool, "kind": "error-diagnostic-exit0"},
